@@ -61,7 +61,7 @@ SvcClose(k) ==
   /\ UNCHANGED <<gen, delivered, echoed, ended>>
 
 Disconnect ==
-  /\ ended' = ended \cup { <<table[i].k, table[i].gen>> : i \in 1..Len(table) }
+  /\ ended' = ended \cup { <<table[i].k, table[i].gen>> : i \in { j \in 1..Len(table) : "teardown_skips" \notin Deviations \/ j % 2 = 1 } }
   /\ table' = <<>>
   /\ UNCHANGED <<gen, delivered, echoed>>
 
